@@ -132,20 +132,12 @@ pub fn eq_classes<S: Src>(s: &mut S) {
 
 // ---------------------------------------------------------------- parsing
 
+/// what the real Display prints for the family (generated natively, see gen_display.rs)
 fn name_str(fam: u8) -> &'static str {
-    match fam {
-        UNARY => "Unary",
-        GAMMA => "Gamma",
-        DELTA => "Delta",
-        OMEGA => "Omega",
-        VBYTE_BE => "VByteBe",
-        VBYTE_LE => "VByteLe",
-        ZETA => "Zeta",
-        PI => "Pi",
-        GOLOMB => "Golomb",
-        EXP_GOLOMB => "ExpGolomb",
-        _ => "Rice",
-    }
+    crate::gen_display::DISPLAY[fam as usize].0
+}
+fn suffix_str(fam: u8) -> &'static str {
+    crate::gen_display::DISPLAY[fam as usize].1
 }
 fn name_bytes(fam: u8) -> &'static [u8] {
     name_str(fam).as_bytes()
@@ -154,7 +146,7 @@ fn name_bytes(fam: u8) -> &'static [u8] {
 /// `Name(d1d2)` (what Display prints for a two-digit parameter) parses to that variant and value
 pub fn parse_two_digits<S: Src, const FAM: u8, const TWO: bool>(s: &mut S) {
     let name = name_bytes(FAM);
-    let mut buf = [0u8; 16];
+    let mut buf = [0u8; 24];
     let mut n = 0;
     while n < name.len() {
         buf[n] = name[n];
@@ -164,16 +156,19 @@ pub fn parse_two_digits<S: Src, const FAM: u8, const TWO: bool>(s: &mut S) {
     let d2 = s.u8();
     let two = TWO;
     s.assume(d1 <= 9 && d2 <= 9 && (!two || d1 >= 1));
-    buf[n] = b'(';
-    n += 1;
     if two {
         buf[n] = b'0' + d1;
         n += 1;
     }
     buf[n] = b'0' + d2;
     n += 1;
-    buf[n] = b')';
-    n += 1;
+    let suf = suffix_str(FAM).as_bytes();
+    let mut q = 0;
+    while q < suf.len() {
+        buf[n] = suf[q];
+        n += 1;
+        q += 1;
+    }
     // all bytes are ASCII by construction
     let text = unsafe { core::str::from_utf8_unchecked(&buf[..n]) };
     let val = if two { 10 * d1 as usize + d2 as usize } else { d2 as usize };
